@@ -18,7 +18,7 @@
 (* The property predicates Prop_Cxx read only a *step record* S, so the    *)
 (* very same text judges model steps and observed steps.                   *)
 (***************************************************************************)
-EXTENDS Integers, Sequences, FiniteSets, TLC, SequencesExt, FiniteSetsExt, Functions
+EXTENDS Integers, Sequences, FiniteSets, TLC, SequencesExt, FiniteSetsExt, Functions, BigNat
 
 CONSTANTS Alphabet,      \* set of input records applied by Next
           SwapRegistered \* TRUE when the test swap controller is registered (instrumented mode)
@@ -203,9 +203,10 @@ MustRefuse(in) == in.mk = "MUT" /\ MustRefuseMut(in.aid, in.op)
 AmtKind(in) == CASE in.amtc \in {"OK", "PLUS"} -> "num"
                  [] in.amtc \in {"LEADZERO", "HEX", "UNDERSCORE"} -> "odd"
                  [] in.amtc \in {"MAX256", "BIG"} -> "huge"
+                 [] in.amtc = "DIGITS" -> "odd"          \* exact big amounts: judged by the BigNat predicates (C04, C02)
                  [] OTHER -> "bad"
 
-ValidBaseDenom(b) == b \in NativeDenoms \cup {"uswap", "ufoo", "uatom"}
+ValidBaseDenom(b) == b \in NativeDenoms \cup {"uswap", "ufoo", "uatom", "ubig"}
 
 -----------------------------------------------------------------------------
 (* Fees (controller/action/fee.go, types/controller/action/fee.go)         *)
@@ -710,6 +711,7 @@ ModelStep(pre, in) ==
        hasQ |-> in.t = "admin",
        q |-> QueryView(r.st),
        x |-> [exportOk |-> TRUE, validateOk |-> TRUE, initOk |-> TRUE, sameExport |-> TRUE, fullOk |-> TRUE],
+       hasBig |-> FALSE, big |-> [esc |-> <<0>>, orb |-> <<0>>, dust |-> <<0>>, F1 |-> <<0>>, F2 |-> <<0>>, U |-> <<0>>],
        hasDiff |-> isRecv \/ in.t \in {"ackpkt", "timeout"},
        diff |-> [ackEq |-> TRUE, eventsEq |-> TRUE, stateEq |-> TRUE, appVersionEq |-> TRUE],
        pages |-> IF in.t = "query" THEN ModelPages(pre, in.q) ELSE <<>>,
